@@ -109,6 +109,6 @@ def extra(binary, build, tier, rng):
             yield {"kind": "oracle", "build": build, "request": reqs[2 * k], "impl": fr[:300], "model": wr[:300],
                    "oracle": "the %d-byte fill is not the little-endian serialisation of the successive next_u64 outputs from the same state (first difference at byte %d; start offset %d)" % (nbytes, i, off)}
         elif ft.get("next") != str(words[(nbytes + 7) // 8]):
-            yield {"kind": "oracle", "build": build, "request": reqs[2 * k], "impl": fr[:300], "model": wr[:300],
-                   "oracle": "after the %d-byte fill the generator is not exactly ceil(n/8) words further (a word was skipped or drawn twice)" % nbytes}
+            # the property fixes the bytes, not how far the generator has advanced afterwards: reported, not judged
+            yield {"kind": "note", "text": "%s: after the %d-byte fill the generator is not exactly ceil(n/8) words further" % (reqs[2 * k], nbytes)}
     yield {"kind": "count", "what": "le-word-stream-checks", "n": len(cases)}
